@@ -278,6 +278,10 @@ def check_artefact(ctx, a, stats):
                     hi = np.maximum(hi, proj)
                 here = np.abs(gR * exR + gZ * exZ)
                 v11 = valid & np.isfinite(lhs) & np.isfinite(lo) & (lo > 0)
+                if opts.get("cap_Bp_ylow_xpoint") and loc == "ylow":
+                    # the option deliberately replaces Bp at the y-faces next to an X-point:
+                    # the metric there is self-consistent but no longer geometric
+                    v11 = v11 & False
                 lower = (lo / here) ** 2 * (1 - 1e-3) - 1e-6
                 upper = (hi / here) ** 2 * (1 + 1e-3) + 1e-6
                 # lhs = (here/mean)^2 must lie in [(here/hi)^2, (here/lo)^2]
